@@ -385,6 +385,14 @@ prop(
     [REAL, STUB],
     cross=[Cross("chacha_block", "C14", "checked", 40000, 400000, QUICK_FIXED, ALL_FIXED, max_ops=32)],
     be_host={"quick": (2, "block,cipher"), "thorough": (12, "block,cipher")},
+    # double-round counts far beyond the sweep (the statement says "any number of double rounds"): `len` is the starting counter
+    huge=[
+        dict(what="rounds:2147483648", len=0xfffffffe),
+        dict(what="rounds:4294967295", len=0xffffffffffffffff, tiers=("thorough",)),
+        dict(what="rounds:2147483649", len=5, tiers=("thorough",)),
+        dict(what="rounds:65536", len=0xfffffffd),
+        dict(what="rounds:16777217", len=0x1fffffffe),
+    ],
 )
 
 prop(
@@ -1238,7 +1246,7 @@ def run_memcheck(pid, spec_mc, tier, sd, replay_dir, results, violations, known)
                 elif line.startswith("==") and ("Invalid" in line or "uninitialised" in line):
                     break
             report = "\n".join(l for l in se.splitlines() if l.startswith("=="))[:1500]
-            bad = (run, report)
+            bad = (run, report, start)
         elif p.returncode not in (0, 1, 9) or out is None:
             log(se[-2000:])
             raise HarnessError("memcheck worker failed rc=%s" % p.returncode)
@@ -1247,10 +1255,13 @@ def run_memcheck(pid, spec_mc, tier, sd, replay_dir, results, violations, known)
     log("[%s] memcheck pass: %d runs, %d operations under valgrind: %s" % (pid, per * nproc, total_ops, "ok" if bad is None else "FAILED in run %s" % bad[0]))
     if bad is None:
         return
-    run, report = bad
+    run, report, start = bad
     kind = "invalid read" if "Invalid read" in report else "invalid write" if "Invalid write" in report else "memcheck error"
     sig = "memcheck on exact-size heap blocks:%s" % kind
-    argv = ["run", "--scenario", "mem", "--mix", "C16heap", "--seed", str(sd), "--start", str(run if run is not None else 0), "--runs", "1", "--threads", "1", "--max-ops", "40", "--recheck-every", "0"]
+    # the replay is the worker's batch up to the failing run, with the very same arguments: where malloc places a block
+    # (its address modulo 16 / 64) depends on everything the process allocated before, and code may depend on that address
+    argv = ["run", "--scenario", "mem", "--mix", "C16heap", "--seed", str(sd), "--start", str(start), "--runs", str((run if run is not None else start) - start + 1), "--threads", "1",
+            "--max-ops", "40", "--progress", "--recheck-every", "0"]
     f = dict(kind="memcheck", argv=argv, ops=[], minimised_from=1,
              violation=dict(properties=[pid], invariant="M4", signature=sig, at_op=0, detail="run %s: %s" % (run, report)))
     path = os.path.join(replay_dir, "%s-memcheck-%s.json" % (pid, run))
@@ -1298,7 +1309,7 @@ def run_huge(pid, entries, tier, sd, replay_dir, results, violations, known):
         if rc == "timeout":
             what = "not refused at once (watchdog)" if e["what"].startswith("exhaust") else "does not finish"
         elif rc == 1:
-            what = "result differs from the same bytes in pieces" if not e["what"].startswith("exhaust") else "not refused / not atomic"
+            what = "not refused / not atomic" if e["what"].startswith("exhaust") else "refill4 differs from four refills" if e["what"].startswith("rounds") else "result differs from the same bytes in pieces"
         elif rc == 99 or (isinstance(rc, int) and rc < 0):
             what = "process killed by a memory fault"
         elif rc == 101:
